@@ -1,31 +1,59 @@
 import MakoModel.Names.LemmasVisit
-/-! Every name a generated scope binds through an assignment form is in the `locally_declared` set of the
-`_Identifiers` built for it, hence reserved-checked. -/
+/-! Every name a generated scope binds – by an assignment form (through its blocks), as an argument, or as the name
+of one of its defs / blocks – is in a collection the reserved-name test of `_Identifiers.__init__` looks at.
+The four membership lemmas depend on the regenerated list of checked collections. -/
 namespace MakoModel.Names
 
-def ScopeDecl (s : Scope) : Prop := ∀ x ∈ declsThrough s.body, x ∈ s.ids.locDecl
+theorem checked_loc {i : Ids} {x : Name} (h : x ∈ i.locDecl) : x ∈ i.checked := by
+  simp [Ids.checked, Generated.Names.reservedCheckedCollections, Ids.collection, h]
+theorem checked_arg {i : Ids} {x : Name} (h : x ∈ i.argDecl) : x ∈ i.checked := by
+  simp [Ids.checked, Generated.Names.reservedCheckedCollections, Ids.collection, h]
+theorem checked_clos {i : Ids} {x : Name} (h : x ∈ i.closdefs) : x ∈ i.checked := by
+  simp [Ids.checked, Generated.Names.reservedCheckedCollections, Ids.collection, h]
+theorem checked_top {i : Ids} {x : Name} (h : x ∈ i.topdefs) : x ∈ i.checked := by
+  simp [Ids.checked, Generated.Names.reservedCheckedCollections, Ids.collection, h]
 
-theorem scopeDecl_visit {path : List PathEl} {kind : Kind} {tag : Nat} {inDef tl : Bool} {i0 : Ids} {b : Body}
-    {fr : Frame} {rest : List Frame} (h : fr.ids.locDecl = (visit i0 false b).locDecl) :
-    ScopeDecl { path, kind, tag, inDef, toplevel := tl, frames := fr :: rest, body := b } := by
-  intro x hx
-  show x ∈ fr.ids.locDecl
-  rw [h]
-  exact (mem_visit_locDecl b i0 false).mpr (Or.inr hx)
+def ScopeBind (s : Scope) : Prop := ∀ x ∈ s.binds, ∃ i ∈ s.ids :: s.extraIds, x ∈ i.checked
+
+/-- what a traversal checks of the names bound in the list it visits -/
+theorem bind_visit {i0 : Ids} {b : Body} {root : Bool} {ea et : List Name} {x : Name}
+    (ha : ∀ y ∈ ea, y ∈ i0.argDecl) (ht : ∀ y ∈ et, y ∈ i0.topdefs)
+    (hx : x ∈ declsThrough b ++ ea ++ closOf root b ++ et) : x ∈ (visit i0 root b).checked := by
+  simp only [List.mem_append] at hx
+  rcases hx with ((hx | hx) | hx) | hx
+  · exact checked_loc ((mem_visit_locDecl b i0 root).mpr (Or.inr hx))
+  · exact checked_arg ((mem_visit_argDecl b i0 root).mpr (Or.inl (ha x hx)))
+  · exact checked_clos ((mem_visit_closdefs b i0 root).mpr (Or.inr hx))
+  · exact checked_top ((mem_visit_topdefs b i0 root).mpr (Or.inl (ht x hx)))
+
+theorem checked_addArgs {i : Ids} {e : List Name} {x : Name} (h : x ∈ i.checked) : x ∈ (i.addArgs e).checked := by
+  simp only [Ids.checked, Generated.Names.reservedCheckedCollections, List.flatMap_cons, List.flatMap_nil, Ids.collection,
+    List.mem_append, addArgs_argDecl, addArgs_closdefs, addArgs_locDecl, addArgs_topdefs] at h ⊢
+  rcases h with h | h | h | h | h
+  · exact Or.inl (Or.inl h)
+  · exact Or.inr (Or.inl h)
+  · exact Or.inr (Or.inr (Or.inl h))
+  · exact Or.inr (Or.inr (Or.inr (Or.inl h)))
+  · exact Or.inr (Or.inr (Or.inr (Or.inr h)))
+
+theorem scopeBind_head {path : List PathEl} {kind : Kind} {tag : Nat} {inDef tl : Bool} {fr : Frame} {rest : List Frame}
+    {b : Body} {ml : Option (List Name)} {ex : List Ids} {bs : List Name} (h : ∀ x ∈ bs, x ∈ fr.ids.checked) :
+    ScopeBind { path, kind, tag, inDef, toplevel := tl, frames := fr :: rest, body := b, mlocals := ml, extraIds := ex, binds := bs } :=
+  fun x hx => ⟨fr.ids, List.mem_cons_self, h x hx⟩
 
 mutual
-theorem scopesIn_decl (c : Cfg) (mods : Ids) :
+theorem scopesIn_bind (c : Cfg) (mods : Ids) :
     ∀ (b : Body) (inDef useLoc emitTop : Bool) (fr : Frame) (rest : List Frame) (path : List PathEl) (own root : Bool),
-      ∀ s ∈ scopesIn c mods inDef useLoc emitTop fr rest path own root b, ScopeDecl s
+      ∀ s ∈ scopesIn c mods inDef useLoc emitTop fr rest path own root b, ScopeBind s
   | .nil, _, _, _, _, _, _, _, _ => by simp [scopesIn]
   | .leaf _ _ _ r, inDef, useLoc, emitTop, fr, rest, path, own, root => by
-      simpa [scopesIn] using scopesIn_decl c mods r inDef useLoc emitTop fr rest path own root
+      simpa [scopesIn] using scopesIn_bind c mods r inDef useLoc emitTop fr rest path own root
   | .text _ _ r, inDef, useLoc, emitTop, fr, rest, path, own, root => by
-      simpa [scopesIn] using scopesIn_decl c mods r inDef useLoc emitTop fr rest path own root
+      simpa [scopesIn] using scopesIn_bind c mods r inDef useLoc emitTop fr rest path own root
   | .code _ _ _ r, inDef, useLoc, emitTop, fr, rest, path, own, root => by
-      simpa [scopesIn] using scopesIn_decl c mods r inDef useLoc emitTop fr rest path own root
+      simpa [scopesIn] using scopesIn_bind c mods r inDef useLoc emitTop fr rest path own root
   | .page _ _ _ r, inDef, useLoc, emitTop, fr, rest, path, own, root => by
-      simpa [scopesIn] using scopesIn_decl c mods r inDef useLoc emitTop fr rest path own root
+      simpa [scopesIn] using scopesIn_bind c mods r inDef useLoc emitTop fr rest path own root
   | .defn t f a u b r, inDef, useLoc, emitTop, fr, rest, path, own, root => by
       intro s hs
       simp only [scopesIn, List.mem_append] at hs
@@ -34,17 +62,19 @@ theorem scopesIn_decl (c : Cfg) (mods : Ids) :
         | true =>
           simp only [if_true, List.mem_cons] at hs
           rcases hs with rfl | hs
-          · exact scopeDecl_visit rfl
-          · exact scopesIn_decl c mods b true false false _ [] _ true false s hs
+          · exact scopeBind_head (fun x hx => bind_visit (i0 := (((mods.branch false).addTop f).addUndecl u).addArgs a)
+              (ea := a) (et := [f]) (by intro y hy; simp [hy]) (by intro y hy; simp at hy; simp [hy]) hx)
+          · exact scopesIn_bind c mods b true false false _ [] _ true false s hs
         | false =>
           simp only [Bool.false_eq_true, if_false] at hs
           by_cases hw : f ∈ toWrite c fr.ids none
           · simp only [hw, if_true, List.mem_cons] at hs
             rcases hs with rfl | hs
-            · exact scopeDecl_visit rfl
-            · exact scopesIn_decl c mods b inDef useLoc false _ (fr :: rest) _ true false s hs
+            · exact scopeBind_head (fun x hx => bind_visit (i0 := ((fr.ids.branch true).addUndecl u).addArgs a)
+                (ea := a) (et := []) (by intro y hy; simp [hy]) (by simp) (by simpa using hx))
+            · exact scopesIn_bind c mods b inDef useLoc false _ (fr :: rest) _ true false s hs
           · simp [hw] at hs
-      · exact scopesIn_decl c mods r inDef useLoc emitTop fr rest path own root s hs
+      · exact scopesIn_bind c mods r inDef useLoc emitTop fr rest path own root s hs
   | .block t nm fn a u b r, inDef, useLoc, emitTop, fr, rest, path, own, root => by
       intro s hs
       simp only [scopesIn, List.mem_append] at hs
@@ -55,8 +85,9 @@ theorem scopesIn_decl (c : Cfg) (mods : Ids) :
           by_cases hw : fn ∈ toWrite c fr.ids none
           · simp only [hw, if_true, List.mem_cons] at hs
             rcases hs with rfl | hs
-            · exact scopeDecl_visit rfl
-            · exact scopesIn_decl c mods b inDef useLoc false _ (fr :: rest) _ true false s hs
+            · exact scopeBind_head (fun x hx => bind_visit (i0 := (fr.ids.branch true).enterBlock true none fn a u)
+                (ea := a) (et := []) (by intro y hy; simp [hy]) (by simp) (by simpa using hx))
+            · exact scopesIn_bind c mods b inDef useLoc false _ (fr :: rest) _ true false s hs
           · simp [hw] at hs
         | some n =>
           simp only at hs
@@ -65,10 +96,12 @@ theorem scopesIn_decl (c : Cfg) (mods : Ids) :
           | true =>
             simp only [if_true, List.mem_cons] at hs
             rcases hs with rfl | hs
-            · exact scopeDecl_visit (i0 := (mods.branch false).enterBlock true (some n) fn a u) rfl
-            · exact scopesIn_decl c mods b true false false _ [] _ true false s hs
-      · exact scopesIn_decl c mods b inDef useLoc emitTop fr rest path false false s hs
-      · exact scopesIn_decl c mods r inDef useLoc emitTop fr rest path own root s hs
+            · exact scopeBind_head (fun x hx => checked_addArgs (bind_visit
+                (i0 := (mods.branch false).enterBlock true (some n) fn a u) (ea := a) (et := [n])
+                (by intro y hy; simp [hy]) (by intro y hy; simp at hy; simp [enterBlock_topdefs, hy]) hx))
+            · exact scopesIn_bind c mods b true false false _ [] _ true false s hs
+      · exact scopesIn_bind c mods b inDef useLoc emitTop fr rest path false false s hs
+      · exact scopesIn_bind c mods r inDef useLoc emitTop fr rest path own root s hs
   | .call t args d u b r, inDef, useLoc, emitTop, fr, rest, path, own, root => by
       intro s hs
       simp only [scopesIn, List.mem_append] at hs
@@ -78,58 +111,66 @@ theorem scopesIn_decl (c : Cfg) (mods : Ids) :
         | true =>
           simp only [if_true, List.mem_append, List.mem_singleton] at hs
           rcases hs with (hs | hs) | hs
-          · exact callDefsIn_decl c mods b inDef _ _ _ _ _ s hs
+          · exact callDefsIn_bind c mods b inDef _ _ _ _ _ s hs
           · subst hs
-            exact scopeDecl_visit (i0 := (((callableIds fr.ids d u b).branch false).addUndecl u).addArgs d)
-              (by simp [callBodyIds, Ids.addDeclared, visitCallSelf])
-          · exact scopesIn_decl c mods b inDef _ false _ _ _ true false s hs
-      · exact scopesIn_decl c mods r inDef useLoc emitTop fr rest path own root s hs
+            intro x hx
+            refine ⟨callableIds fr.ids d u b, by simp, ?_⟩
+            exact bind_visit (i0 := ((fr.ids.branch true).addUndecl u).addArgs d) (ea := d) (et := [])
+              (by intro y hy; simp [hy]) (by simp) (by simpa using hx)
+          · exact scopesIn_bind c mods b inDef _ false _ _ _ true false s hs
+      · exact scopesIn_bind c mods r inDef useLoc emitTop fr rest path own root s hs
 
-theorem callDefsIn_decl (c : Cfg) (mods : Ids) :
+theorem callDefsIn_bind (c : Cfg) (mods : Ids) :
     ∀ (b : Body) (inDef useCD : Bool) (cal : Ids) (ccD : Frame) (rest : List Frame) (path : List PathEl),
-      ∀ s ∈ callDefsIn c mods inDef useCD cal ccD rest path b, ScopeDecl s
+      ∀ s ∈ callDefsIn c mods inDef useCD cal ccD rest path b, ScopeBind s
   | .nil, _, _, _, _, _, _ => by simp [callDefsIn]
   | .leaf _ _ _ r, inDef, useCD, cal, ccD, rest, path => by
-      simpa [callDefsIn] using callDefsIn_decl c mods r inDef useCD cal ccD rest path
+      simpa [callDefsIn] using callDefsIn_bind c mods r inDef useCD cal ccD rest path
   | .text _ _ r, inDef, useCD, cal, ccD, rest, path => by
-      simpa [callDefsIn] using callDefsIn_decl c mods r inDef useCD cal ccD rest path
+      simpa [callDefsIn] using callDefsIn_bind c mods r inDef useCD cal ccD rest path
   | .code _ _ _ r, inDef, useCD, cal, ccD, rest, path => by
-      simpa [callDefsIn] using callDefsIn_decl c mods r inDef useCD cal ccD rest path
+      simpa [callDefsIn] using callDefsIn_bind c mods r inDef useCD cal ccD rest path
   | .page _ _ _ r, inDef, useCD, cal, ccD, rest, path => by
-      simpa [callDefsIn] using callDefsIn_decl c mods r inDef useCD cal ccD rest path
+      simpa [callDefsIn] using callDefsIn_bind c mods r inDef useCD cal ccD rest path
   | .defn t f a u b r, inDef, useCD, cal, ccD, rest, path => by
       intro s hs
       simp only [callDefsIn, List.mem_append, List.mem_cons] at hs
       rcases hs with (rfl | hs) | hs
-      · exact scopeDecl_visit rfl
-      · exact scopesIn_decl c mods b inDef useCD false _ (ccD :: rest) _ true false s hs
-      · exact callDefsIn_decl c mods r inDef useCD cal ccD rest path s hs
+      · exact scopeBind_head (fun x hx => bind_visit (i0 := ((cal.branch false).addUndecl u).addArgs a)
+          (ea := a) (et := []) (by intro y hy; simp [hy]) (by simp) (by simpa using hx))
+      · exact scopesIn_bind c mods b inDef useCD false _ (ccD :: rest) _ true false s hs
+      · exact callDefsIn_bind c mods r inDef useCD cal ccD rest path s hs
   | .block t nm fn a u b r, inDef, useCD, cal, ccD, rest, path => by
       intro s hs
       simp only [callDefsIn, List.mem_append, List.mem_cons] at hs
       rcases hs with (rfl | hs) | hs
-      · exact scopeDecl_visit (i0 := (cal.branch false).enterBlock true nm fn a u) rfl
-      · exact scopesIn_decl c mods b inDef useCD false _ (ccD :: rest) _ true false s hs
-      · exact callDefsIn_decl c mods r inDef useCD cal ccD rest path s hs
+      · exact scopeBind_head (fun x hx => bind_visit (i0 := (cal.branch false).enterBlock true nm fn a u)
+          (ea := a) (et := []) (by intro y hy; simp [hy]) (by simp) (by simpa using hx))
+      · exact scopesIn_bind c mods b inDef useCD false _ (ccD :: rest) _ true false s hs
+      · exact callDefsIn_bind c mods r inDef useCD cal ccD rest path s hs
   | .call _ _ _ _ b r, inDef, useCD, cal, ccD, rest, path => by
       intro s hs
       simp only [callDefsIn, List.mem_append] at hs
       rcases hs with hs | hs
-      · exact callDefsIn_decl c mods b inDef useCD cal ccD rest path s hs
-      · exact callDefsIn_decl c mods r inDef useCD cal ccD rest path s hs
+      · exact callDefsIn_bind c mods b inDef useCD cal ccD rest path s hs
+      · exact callDefsIn_bind c mods r inDef useCD cal ccD rest path s hs
 end
 
-theorem allScopes_decl (c : Cfg) (t : Body) : ∀ s ∈ allScopes c t, ScopeDecl s := by
+theorem allScopes_bind (c : Cfg) (t : Body) : ∀ s ∈ allScopes c t, ScopeBind s := by
   intro s hs
   simp only [allScopes, List.mem_cons] at hs
   rcases hs with rfl | hs
   · intro x hx
-    show x ∈ (bodyIds c t).locDecl
-    simp only [bodyIds, addArgs_locDecl]
-    exact (mem_visit_locDecl t _ true).mpr (Or.inr hx)
-  · exact scopesIn_decl c (moduleIds c t) t false _ true _ [] _ true true s hs
+    refine ⟨bodyIds c t, List.mem_cons_self, ?_⟩
+    have hx' : x ∈ declsThrough t ++ closOf true t ++ topsOf true t := by simpa [bodyScope] using hx
+    simp only [List.mem_append] at hx'
+    rcases hx' with hx' | hx'
+    · exact checked_addArgs (bind_visit (i0 := (moduleIds c t).branch false) (root := true) (ea := []) (et := [])
+        (by simp) (by simp) (by simpa using hx'))
+    · exact checked_addArgs (checked_top ((mem_visit_topdefs t _ true).mpr (Or.inr hx')))
+  · exact scopesIn_bind c (moduleIds c t) t false _ true _ [] _ true true s hs
 
-theorem mem_conflicts {c : Cfg} {i : Ids} {x : Name} : x ∈ i.conflicts c ↔ x ∈ c.reserved ∧ x ∈ i.locDecl := by
+theorem mem_conflicts {c : Cfg} {i : Ids} {x : Name} : x ∈ i.conflicts c ↔ x ∈ c.reserved ∧ x ∈ i.checked := by
   simp [Ids.conflicts, List.mem_filter]
 
 end MakoModel.Names
